@@ -1,7 +1,7 @@
 (* Props/C10.v — pinned statements for property C10 (derived codecs are forward and backward compatible as
    documented). *)
 From MC Require Import Bytes Monad Cbor Decoder Encoder Types DeriveSchema DeriveEnc DeriveDec DeriveDoc DeriveKnown DeriveCompat
-  DeriveFacts DeriveDocFacts DeriveDecFacts DeriveCompatFacts DeriveClosed.
+  DeriveMigrate DeriveFacts DeriveDocFacts DeriveDecFacts DeriveCompatFacts DeriveClosed DeriveMigrateFacts.
 Local Open Scope N_scope.
 
 (* One struct / variant body in two versions (writer fsW, reader fsR, same encoding e), related by the
@@ -69,6 +69,74 @@ Theorem C10_compat_struct_partial : forall (c : cfg)
   enc_def recE (DStruct e tag false shW fsW) (VList vsW) = Some cs ->
   reads_f (dec_def c recD (DStruct e tag false shR fsR)) (flat cs) (VList (migrate_fields recV fsW vsW fsR)).
 Proof. intro c. exact (struct_compat_reads c leaf_ok (leaf_reads c)). Qed.
+
+(* C10 AT SCHEMA LEVEL.  Two whole schemas — the writer's ScW and the reader's ScR, definition d of the one being the older /
+   newer version of definition d of the other — related definition-wise by the documented-compatible edits (schema_compat,
+   Model/DeriveMigrate.v): per struct and per variant both versions know, body_compat (optional fields added or dropped at new
+   or gap indices — tagged or not, array or map —, names, declaration order, n/b, named / tuple shape free); unit variant <->
+   variant with only optional fields (a unit variant counts as the empty field list; a reader's unit variant skips whatever
+   body the writer wrote); variants added to or removed from an enum.  All nested definitions evolve at once: the proof is by
+   induction over the definition graph (DeriveMigrateFacts.migrate_f_two) with a two-outcome invariant per value.
+   Then for EVERY value v of the writer's definition d, with `migrate ScW ScR d v` the reader's view of it (shared fields
+   migrated recursively through references, Option and Vec; reader-only fields nil; writer-only fields ignored; skipped fields
+   defaulted; an unknown variant ANYWHERE inside the value of an optional field turns that field into its nil value):
+     migrate = Some v' : the reader's derived decoder reads the writer's derived encoding, followed by any suffix, as v' and
+                         stops exactly at its end;
+     migrate = None    : the value contains a variant the reader does not know outside every optional field (a place for which
+                         the documentation promises nothing): the reader answers UnknownVariant — never a wrong value.
+   Hypotheses: both schemas accepted; the reader's leaf types leaf_ok and no Option<transparent newtype> (as C09); input below
+   2^64 bytes; and `writer_skippable c ScW`: skip() consumes, as one item, every item the writer's schema writes for a field (with
+   and without the field's tag) and every variant body — this is property C06 applied to the well-formed tree that C08_format
+   provides for these bytes; C10_skippable / C10_skippable_full below discharge it item by item (full configuration, text valid
+   UTF-8, outside class F14), it is NOT discharged at schema level here (it is the one premise that comes from another property;
+   no instance of it is exhibited in Coq — the correspondence runs it on every generated pair).
+   Both directions of every edit are instances (swap the roles of the schemas). *)
+Theorem C10_compat : forall c ScW ScR d v cs rest,
+  schema_ok ScW = true -> schema_ok ScR = true -> schema_all leaf_ok ScR -> schema_rt ScR = true ->
+  schema_compat ScW ScR -> writer_skippable c ScW ->
+  gen_encode ScW d v = Some cs -> len (flat cs ++ rest) < two64 ->
+  match migrate ScW ScR d v with
+  | Some v' => gen_decode c ScR d (start (flat cs ++ rest)) = (Ok v', mkdst (len (flat cs)) rest (len (flat cs ++ rest)))
+  | None => exists n s', gen_decode c ScR d (start (flat cs ++ rest)) = (Err (UnknownVariant n), s')
+  end.
+Proof. exact compat_roundtrip_closed. Qed.
+
+(* the same with the leaf types abstract (C01_roundtrip as a hypothesis) *)
+Theorem C10_compat_gen : forall (c : cfg) (okty : ty -> Prop),
+  (forall t, okty t -> forall v cs, encode_ty t v = Some cs -> flat cs <> [] /\ reads_f (decode_ty c t) (flat cs) v) ->
+  forall ScW ScR d v cs rest,
+  schema_ok ScW = true -> schema_ok ScR = true -> schema_all okty ScR -> schema_rt ScR = true ->
+  schema_compat ScW ScR -> writer_skippable c ScW ->
+  gen_encode ScW d v = Some cs -> len (flat cs ++ rest) < two64 ->
+  match migrate ScW ScR d v with
+  | Some v' => gen_decode c ScR d (start (flat cs ++ rest)) = (Ok v', mkdst (len (flat cs)) rest (len (flat cs ++ rest)))
+  | None => exists n s', gen_decode c ScR d (start (flat cs ++ rest)) = (Err (UnknownVariant n), s')
+  end.
+Proof. exact compat_roundtrip. Qed.
+
+(* one struct / variant body in two versions with the nested definitions in two versions as well (the body-level core of
+   C10_compat; generalises C10_compat_partial, whose nested definitions are shared) *)
+Theorem C10_compat_body : forall (c : cfg) (okty : ty -> Prop),
+  (forall t, okty t -> forall v cs, encode_ty t v = Some cs -> flat cs <> [] /\ reads_f (decode_ty c t) (flat cs) v) ->
+  forall (recE : nat -> value -> option (list chunk)) (recD : nat -> nat -> M value) (recM : nat -> value -> option value) (ntr : nat -> bool),
+  (forall d v cs, recE d v = Some cs ->
+     flat cs <> [] /\ (ntr d = true -> hd_class (flat cs) = true) /\ outcome (recD d) (flat cs) (recM d v)) ->
+  forall dW dR e sh fsW fsR vsW cs,
+  fields_ok dW fsW = true -> fields_ok dR fsR = true -> fields_all okty fsR -> fields_rt ntr fsR = true ->
+  body_compat fsW fsR -> fields_skippable c recE fsW vsW ->
+  enc_fields recE e fsW vsW = Some cs ->
+  outcome (dec_body c recD e sh fsR) (flat cs) (option_map VList (mig_fields recM fsW vsW fsR)).
+Proof. exact fields_two. Qed.
+
+(* schema_compat and migrate on the regular-enum pair of C10_regular_enum_example (the writer knows variant 7 of the enum, the
+   reader does not): inside the Option field the unknown variant becomes None; decoded directly it is UnknownVariant 7 *)
+Example C10_schema_compat_example :
+  schema_compat rg_writer rg_reader /\ schema_compat rg_reader rg_writer /\
+  migrate rg_writer rg_reader 1 (VList [VNat 1; VSome (VVar 7 (VList [VNat 5])); VNat 9]) = Some (VList [VNat 1; VNone; VNat 9]) /\
+  migrate rg_writer rg_reader 1 (VList [VNat 1; VSome (VVar 0 (VList [])); VNat 9]) = Some (VList [VNat 1; VSome (VVar 0 (VList [])); VNat 9]) /\
+  migrate rg_writer rg_reader 0 (VVar 7 (VList [VNat 5])) = None /\
+  gen_decode cfg_full rg_reader 0 (start [130; 7; 129; 5]) = (Err (UnknownVariant 7), mkdst 2 [129; 5] 4).
+Proof. exact rg_schema_compat. Qed.
 
 (* the skippability hypothesis above follows from C06 (skip consumes one well-formed item) and C08_format *)
 Theorem C10_skippable : forall c,
@@ -158,6 +226,9 @@ Qed.
 Print Assumptions C10_compat_partial.
 Print Assumptions C10_compat_leaf_partial.
 Print Assumptions C10_compat_struct_partial.
+Print Assumptions C10_compat.
+Print Assumptions C10_compat_gen.
+Print Assumptions C10_compat_body.
 Print Assumptions C10_skippable.
 Print Assumptions C10_skippable_full.
 Print Assumptions C10_unknown_variant_optional.
